@@ -102,6 +102,42 @@ def _inline_wait_rules(facts, R, cb, cs, waits, rm):
                 "the Ok payload of the receive")
 
 
+def _inline_fail_rules(facts, R, module, lb, ls, fails, stops):
+    """fail_all_pending written out inside the response loop: same obligations, on the blocks reachable from the drain."""
+    from analysis.flow import in_cycle
+    after = set()
+    work = [p[0] for p in fails]
+    while work:
+        x = work.pop()
+        if x in after:
+            continue
+        after.add(x)
+        work.extend(lb.succs(x))
+    adapters = [t["callee"]["name"] for i, t in lb.calls() if i in after and t["callee"].get("trait") == "std::iter::Iterator"
+                and t["callee"]["name"] not in ("collect", "next")]
+    R.check(not adapters, "loop-exit-fails-all", lb.path, "no waiter is skipped", "the drained waiters pass through %s before being failed" % adapters, lb.span,
+            "drain().collect() then a plain for loop")
+    sends = [(i, t) for i, t in lb.calls() if i in after and i not in {p[0] for p in fails} and t["callee"]["name"] == "send" and ("Sender" in t["callee"]["path"])]
+    ok_send = len(sends) == 1
+    det = ""
+    for i, t in sends:
+        a1 = ls.op(t["args"][1])
+        det = render(a1)[:120]
+        ok_send = ok_send and a1[0] == "agg" and a1[2] == "Err" and in_cycle(lb, i) and "Some" in render(ls.op(t["args"][0]))
+    R.check(ok_send, "loop-exit-fails-all", lb.path, "each drained waiter gets Err", "sends after the drain: %d %s" % (len(sends), det), lb.span,
+            "one send(Err(..)) per drained entry, inside the loop over the drained entries")
+    closers = [term_pt(lb, i) for i, t in lb.calls() if t["callee"]["name"] in ("shutdown", "close_writer", "close")]
+    w = must_cross(lb, [(0, 0)], return_points(lb), closers, after_start=False, stop=stops)
+    R.check(bool(closers) and w is None, "reader-death-closes-writer", lb.path, "write side closed",
+            "the response loop can end without shutting the write side: later calls would write into a dead connection and wait", lb.span,
+            "shutdown/close crossed on all exits that fail the waiters", path=w)
+    if module == "websocket_client":
+        tk = [term_pt(lb, i) for i, t in lb.calls() if callee_matches(t["callee"], "websocket_client::take_notify_sender")]
+        w = must_cross(lb, [(0, 0)], return_points(lb), tk, after_start=False, stop=stops)
+        R.check(bool(tk) and w is None, "notify-closed-on-loss", lb.path, "notify slot emptied",
+                "the notification subscriber is not told that the socket died (its recv() parks forever)", lb.span, "take_notify_sender on all exits", path=w)
+
+
 def run(facts, R):
     has_ws = "websocket" in facts.features
     for module, loopfn, failfn, is_async in LOOPS:
@@ -110,6 +146,12 @@ def run(facts, R):
         lb = facts.body(loopfn)
         ls = Sym(lb)
         fails = [term_pt(lb, i) for i, t in lb.calls() if callee_matches(t["callee"], module + "::fail_all_pending")]
+        # fail_all_pending merged into the loop: the fail-all event is the drain of the pending map, and the obligations on the
+        # helper's body are read off the loop body (the part reachable from the drain)
+        inline_fail = not fails and not facts.has_body(failfn) and lb.changed
+        if inline_fail:
+            fails = [term_pt(lb, i) for i, t in lb.calls() if t["callee"]["name"] == "drain" and "HashMap" in t["callee"]["path"]]
+            R.note("%s: no fail_all_pending helper; the drain of the pending map in %s is taken as the fail-all event" % (module, loopfn))
         R.floor("loop-exit-fails-all", len(fails), 1, "fail_all_pending calls in " + loopfn)
         stops = []
         used = set()
@@ -131,6 +173,9 @@ def run(facts, R):
         # ---- loss-signal-ends-loop: once the connection reported loss, the loop never reads again
         loss_signal_rule(facts, R, module, lb, ls)
         # ---- fail_all_pending itself
+        if inline_fail:
+            _inline_fail_rules(facts, R, module, lb, ls, fails, stops)
+            continue
         fb = facts.body(failfn)
         fsym = Sym(fb)
         drains = [(i, t) for i, t in fb.calls() if t["callee"]["name"] == "drain" and "HashMap" in t["callee"]["path"]]
@@ -213,6 +258,15 @@ def run(facts, R):
         err_blocks = [x for x in sorted(cb.live_blocks()) if any(f["val"] in ("Err", "Break") and any(y[0] == "call" and y[3] == i for y in walk(f["expr"])) for f in facts_at(cb, cs, facts, x))]
         heads = [x for x in err_blocks if not any(p in err_blocks for p in cb.preds()[x])]
         R.check(bool(heads), "pending-removed-on-abandon", cb.path, "write failure arm found", "no Err arm for write_request", t.get("span"))
+        # a later re-test of the same result (`r.inspect_err(..)?`: the Err arm ran the clean-up, then `?` sees Err again) starts no
+        # new failure path: judge from the write itself - every way to a return passes the success edge or the removal
+        ok_blocks = [(x, 0) for x in sorted(cb.live_blocks()) if any(f["val"] in ("Ok", "Continue") and any(y[0] == "call" and len(y) > 3 and y[3] == i for y in walk(f["expr"]))
+                                                                      for f in facts_at(cb, cs, facts, x))]
+        if getattr(cb, "changed", False) and heads:
+            w0 = must_cross(cb, [term_pt(cb, i)], return_points(cb), rm + ok_blocks)
+            if w0 is None:
+                R.ok("pending-removed-on-abandon", cb.path, "write failure removes the pending entry", t.get("span"), "remove_pending(id) crossed")
+                continue
         for h in heads:
             w = must_cross(cb, [(h, 0)], return_points(cb), rm, after_start=False)
             R.check(bool(rm) and w is None, "pending-removed-on-abandon", cb.path, "write failure removes the pending entry",
@@ -320,6 +374,27 @@ def run(facts, R):
                 if f["expr"][0] == "field" and f["expr"][2] in gflds and isinstance(f["val"], bool):
                     flag, vrm = f["expr"][2], f["val"]
             okd = flag is not None
+            # one Option<u64> in place of (id, disarmed): Drop removes the id while the slot is Some, disarm() empties it
+            opt = None
+            if key[0] == "field" and key[2] == "0" and key[1][0] == "variant" and key[1][2] == "Some" and key[1][1][0] == "field" and key[1][1][2] in gflds \
+                    and any(f["val"] == "Some" and f["expr"] == key[1][1] for f in fs):
+                opt = key[1][1][2]
+            if opt is not None:
+                from analysis.guards import struct_constructions
+                R.ok("pending-removed-on-abandon", dp.path, "remove(self.request_id) unless disarmed", t.get("span"), "pending.remove(id) while `%s` is Some(id)" % opt)
+                for cb, ci, cj, cst in struct_constructions(facts, gadt):
+                    init = dict(zip(cst["rv"]["fields"], cst["rv"]["ops"])).get(opt)
+                    iv = Sym(cb).op(init) if init is not None else None
+                    R.check(iv is not None and iv[0] == "agg" and iv[2] == "Some", "pending-removed-on-abandon", cb.path, "guard starts armed",
+                            "a PendingRequestGuard is built with %s = %s: its Drop would not remove the entry" % (opt, render(iv) if iv else None), cst.get("span"), "%s = Some(id)" % opt)
+                for w in field_writes(facts, gadt, opt):
+                    okw = w["body"].path == gadt + "::disarm"
+                    if okw and w["kind"] == "store":
+                        wv = Sym(w["body"]).rvalue(w["rv"])
+                        okw = wv[0] == "agg" and wv[2] == "None"
+                    R.check(okw, "pending-removed-on-abandon", w["body"].path, "flag flipped only by disarm()",
+                            "`%s` is written outside disarm() or to an arming value" % opt, w["span"])
+                continue
             R.check(okk and okd, "pending-removed-on-abandon", dp.path, "remove(self.request_id) unless disarmed",
                     "Drop removes %s under %s" % (render(key), texts(fs)), t.get("span"), "pending.remove(self.request_id) on the `%s == %s` edge" % (flag, vrm))
             if flag is None:
@@ -398,6 +473,16 @@ def loss_signal_rule(facts, R, module, lb, ls):
     # other paths, e.g. when the read and the decode sit in one helper whose Err exits were specialised)
     from analysis.guards import _variants_for_discr
     from analysis.sym import switch_alternatives
+    # what the frame decoder answers for a peer Close frame is a loss signal whatever the answer's type is called
+    # (`Err(..)`, or a variant of a private result enum): taken from the decoder's own rows
+    dec_loss, dec_rows = {"Err"}, []
+    if module == "websocket_client" and "websocket_client::decode_websocket_frame" in facts.bodies:
+        from rules.common import value_rows as _vr
+        db_ = facts.body("websocket_client::decode_websocket_frame")
+        dec_rows = _vr(db_, Sym(db_), facts, 0)
+        for g_, v_ in dec_rows:
+            if any("Close" in x_ for x_ in g_) and not v_.startswith("Result::"):
+                dec_loss.add(v_.split("{", 1)[0].rsplit("::", 1)[-1])
     for x in sorted(lb.live_blocks()):
         t = lb.term(x)
         if t["k"] != "switch" or t.get("on_ty") == "bool":
@@ -410,14 +495,14 @@ def loss_signal_rule(facts, R, module, lb, ls):
                 continue
             is_dec = "decode_websocket_frame" in render(e[1])
             listed = {vm.get(v, str(v)): tb for v, tb in t["targets"]}
-            for name in ("Err", "None"):
+            for name in (("Err", "None") if not is_dec else tuple(sorted(dec_loss))):
                 if name not in vm.values() or (name == "None" and is_dec):
                     continue
                 tb = listed.get(name, t.get("otherwise"))
                 if tb is None or (lb.term(tb)["k"] == "unreachable" and not lb.blocks[tb]["stmts"]):
                     continue
                 loss.append((tb, 0))
-                kinds.add((name, "decode" if is_dec else "read"))
+                kinds.add((name if not is_dec else "Err", "decode" if is_dec else "read"))
     want = {"client": 1, "async_client": 1, "websocket_client": 3}[module]
     R.floor("loss-signal-ends-loop", len(kinds), want, "distinct loss signals (read Err / end of stream / undecodable frame) in " + lb.path)
     for u in sorted(used):
@@ -431,10 +516,13 @@ def loss_signal_rule(facts, R, module, lb, ls):
         from rules.common import value_rows
         rows = value_rows(db, Sym(db), facts, 0)
         close_rows = [(g, v) for g, v in rows if any("Close" in x for x in g)]
-        R.check(bool(close_rows) and all(v.startswith("Result::Err") for g, v in close_rows), "loss-signal-ends-loop", db.path, "a Close frame is a loss signal",
+        loss_heads = ("Result::Err",) + tuple(n_ for n_ in dec_loss if n_ != "Err")
+        R.check(bool(close_rows) and all(v.startswith("Result::Err") or v.split("{", 1)[0].rsplit("::", 1)[-1] in loss_heads for g, v in close_rows),
+                "loss-signal-ends-loop", db.path, "a Close frame is a loss signal",
                 "decode_websocket_frame maps a peer Close frame to %s: the loop keeps waiting on a connection the peer has closed" % [v[:40] for g, v in close_rows],
                 db.span, "Close -> Err")
-        ignored = [g for g, v in rows if v == "Result::Ok{0: Option::None{}}"]
+        # rows that carry nothing to the loop (Ok(None), or a payload-free variant that is not the loss variant)
+        ignored = [g for g, v in rows if v == "Result::Ok{0: Option::None{}}" or (v.endswith("{}") and not v.startswith("Result::") and v.split("{", 1)[0].rsplit("::", 1)[-1] not in dec_loss)]
         okset = all(set(_variants(x)) <= {"Ping", "Pong", "Frame"} for g in ignored for x in g if "arg1 is" in x)
         R.check(okset, "loss-signal-ends-loop", db.path, "only keep-alive frames are skipped", "frames skipped without effect: %s" % ignored, db.span, "skipped: Ping/Pong/Frame")
 
